@@ -478,8 +478,33 @@ def sum_cases():
     return out
 
 
+# a set (a list) that was walked, then edited in place by a documented mutator, then handed to the functions: they see
+# the collection as it is now (a sorted view kept from before the edit would show here)
+HISTORY_EDITS = [("<<1, 2, 3, 'a'>>", "remove(s, 2)", "<<1, 3, 'a'>>"), ("<<1, 2, 3>>", "append(s, 0)", "<<0, 1, 2, 3>>"),
+                 ("<<1, 2, 3>>", "remove(s, 3); append(s, 9)", "<<1, 2, 9>>"), ("[3, 1, 2]", "delete_at(s, 0)", "[1, 2]"),
+                 ("[3, 1, 2]", "s[1] = 7", "[3, 7, 2]"), ("<<[1], [2]>>", "remove(s, [1])", "<<[2]>>")]
+HISTORY_WALKS = ["string(s)", "for x in s do x end", "[x for x in s]", "s == s", "union(s, s)", "sorted(list(s))", "length(s)"]
+HISTORY_USES = ["union(s, <<>>)", "union(<<5>>, s)", "intersection(s, s)", "diff(s, <<1>>)", "symmetric_diff(s, <<1, 5>>)", "unique(list(s))",
+                "reverse(list(s))", "enumerate(list(s))", "pairs(list(s))", "zip(list(s), list(s))", "flatten([list(s)])", "chunks(list(s), 2)",
+                "min(list(s))", "max(list(s))", "[x for x in s]", "string(s)", "list(s)", "set(s)", "length(s)", "grouped(list(s))"]
+
+
 def check_directed(ck):
     n = 0
+    for before, edit, after in HISTORY_EDITS:
+        for walk in HISTORY_WALKS:
+            for use in HISTORY_USES:
+                for impl in ck.impls:
+                    ck.nchecks += 1
+                    n += 1
+                    a = impl.call(f"do def s = {before}; {walk}; {edit}; {use} end")
+                    b = impl.call(f"do def s = {after}; {use} end")
+                    same = a[0] == b[0] and (a[0] != "val" or absval.strict_eq(a[1], b[1])) and (a[0] == "val" or a[1:] == b[1:])
+                    if not same:
+                        tag = env_tag(impl.legacy)
+                        ck.run.violation(tag + f"history:{before};{walk};{edit};{use}",
+                                         f"textbook: {tag}def s = {before}; {walk}; {edit}; {use} gives {show(a)}, the same call on "
+                                         f"{after} gives {show(b)}", {"kind": "directed", "legacy": impl.legacy})
     for arg, want in FLATTEN_CASES:
         for impl in ck.impls:
             ck.nchecks += 1
